@@ -573,7 +573,35 @@ func rMutatePath(r *rand.Rand, p string) string {
 	if p == "" {
 		return "/"
 	}
-	switch r.Intn(7) {
+	switch r.Intn(10) {
+	case 7: // duplicate a segment (a repeated segment right after an empty one is what a parameter that wrongly
+		// swallows a slash needs in order to still match the rest of its pattern)
+		seg := strings.Split(p, "/")
+		if len(seg) > 1 {
+			i := 1 + r.Intn(len(seg)-1)
+			seg = append(seg[:i+1], seg[i:]...)
+		}
+		return strings.Join(seg, "/")
+	case 8: // empty a segment and repeat the next one: /a/x/b -> /a//b/b
+		seg := strings.Split(p, "/")
+		if len(seg) > 2 {
+			i := 1 + r.Intn(len(seg)-2)
+			seg[i] = ""
+			seg = append(seg[:i+2], seg[i+1:]...)
+		}
+		return strings.Join(seg, "/")
+	case 9: // double one of the slashes
+		var at []int
+		for i := 0; i < len(p); i++ {
+			if p[i] == '/' {
+				at = append(at, i)
+			}
+		}
+		if len(at) == 0 {
+			return p + "//"
+		}
+		i := at[r.Intn(len(at))]
+		return p[:i] + "/" + p[i:]
 	case 0: // drop a byte
 		i := r.Intn(len(p))
 		return p[:i] + p[i+1:]
